@@ -109,6 +109,12 @@ func checkC16(c *Ctx) {
 	c.guard(p, "C16.verifyguard", "DLEQ accepted only if the composites could be computed", vbf, GuardSpec{Assumes: []Assume{calleeAssume(latNonNil, 2, "(zk/dleq.Params).computeComposites")}})
 	c.guard(p, "C16.verifyguard", "single-statement Verify delegates to VerifyBatch", p.Func("zk/dleq", "Verifier", "Verify"), GuardSpec{Assumes: []Assume{calleeAssume(latFalse, -1, vb)}})
 	c.guard(p, "C16.verifyguard", "Schnorr proof accepted only if V == rG + c*kG", p.Func("zk/dl", "", "Verify"), GuardSpec{Assumes: []Assume{calleeAssume(latFalse, -1, "invoke (group.Element).IsEqual")}})
+	// a batch statement is a list of pairs: surplus evaluated elements that no coefficient covers must not
+	// be accepted along with a proof about the others
+	for _, t := range [][2]int64{{2, 3}, {3, 2}, {1, 0}} {
+		c.evalAcceptRule(p, "C16.verifyguard", sprintf("composites of %d elements with %d evaluated elements are refused", t[0], t[1]),
+			p.Func("zk/dleq", "Params", "computeComposites"), map[string]lat{"bi": latSliceLen(t[0]), "kbi": latSliceLen(t[1])}, nil, false)
+	}
 	// an encoded proof has exactly two scalars: trailing bytes make a second encoding of the same proof
 	c.lenReject(p, "C16.verifyguard", p.Func("zk/dleq", "Proof", "UnmarshalBinary"), "data", false)
 	qv := p.Func("zk/qndleq", "Proof", "Verify")
